@@ -175,8 +175,10 @@ class C10(core.Check):
         "in the allowed string is in the alphabet; checked for the real str.upper/str.lower over all code points for "
         "every alphabet the generators use, every run (extra_checks)",
         "part-2 theorems (cursor_cell, cursor_visible, click_cell, row_home/row_end_*) speak about layout rows of the "
-        "stated shape (text segment as wide as its text, only a leading pad negative); how often real layouts have "
-        "it is counted in the evidence (hyp:* counters: always, in every run so far)",
+        "stated shape (text segment as wide as its text, only a leading pad negative); part 2b PROVES that shape for "
+        "every row of C03's model of StandardTextLayout.layout (Model/TextLayout.v, imported read-only) and of the "
+        "shifted view, so for click_cell the remaining assumption is that the layout data equals that model's output "
+        "(C03's correspondence); the shape is also counted on the real layouts (hyp:* counters: always so far)",
     ]
     level_text = ("Proved in Coq, for every caption/text/flags/mask/variant, every history of events (printable, "
                   "multi-character and unused key strings, tab, enter, left/right/up/down/home/end, backspace, delete, "
@@ -197,10 +199,12 @@ class C10(core.Check):
                   "shape: the cursor of a shown offset is the cell where the layout shows it (cursor_cell), shifted into "
                   "the w columns at clamp(x,0,w-1) in a focused view (cursor_visible), a click on any column of a "
                   "character's cell selects that character (click_cell, column_to_offset), home/end go to the first / "
-                  "last offset of the row (row_home, row_end_*).  NOT theorem-backed (correspondence / oracle only): "
+                  "last offset of the row (row_home, row_end_*); for the layouts of StandardTextLayout (C03's model, all wrap modes and "
+                  "alignments) the row shape is proved, not assumed (standard_layout_rows_have_cell_shape, "
+                  "click_cell_on_standard_layout).  NOT theorem-backed (correspondence / oracle only): "
                   "bytes mode and other encodings (offset on a character boundary; oracle on a bytes stream), the drawn "
-                  "canvas (cursor cell holds the character at the offset, rows() == canvas rows, render never raises), that real layouts have the assumed row shape "
-                  "(counted), the preferred-column semantics of up/down beyond what the reference editor states; "
+                  "canvas (cursor cell holds the character at the offset, rows() == canvas rows, render never raises), that the layout data sent to the model is the output of C03's layout model (C03's correspondence; "
+                  "the row shape is also counted on the real layouts), the preferred-column semantics of up/down beyond what the reference editor states; "
                   "highlight is not covered.  "
                   "BYTES MODE (utf8 byte encoding), part 3: pos_on_char_boundary_inv - for every event history from a UTF-8 "
                   "caption/text with the offset on a character boundary, the text stays valid UTF-8 and both halves around "
